@@ -119,6 +119,8 @@ def check(sid, tier='quick', props=None, mode=None):
         for p in props:
             t0 = time.time()
             r = subprocess.run([f'{V}/check.sh', p, tier], env=env, capture_output=True, text=True)
+            # the run against the CHANGED tree rewrote evidence/<p>.json: put the committed (clean-tree) file back
+            subprocess.run(['git', '-C', V, 'checkout', '--', f'evidence/{p}.json'], capture_output=True)
             caught = r.returncode == 1 and f'VIOLATION property={p}' in r.stdout
             first = next((l for l in r.stderr.splitlines() if l.startswith('----')), '')
             msg = ''
